@@ -203,6 +203,7 @@ pub fn c12_configs(thorough: bool) -> Vec<EpCfg> {
                     c.alph = session_alph(true, mx as u32 + 1);
                     c.alph.pub_q = vec![1, 2];
                     c.alph.erase = true;
+                    c.alph.defer_pubrel = !auto;
                     // refusals in between: an alias above the peer's Topic Alias Maximum (the limit test has
                     // passed by then), a packet larger than the peer accepts
                     c.alph.als = vec![Al::No, Al::Reg(3)];
